@@ -235,6 +235,31 @@ func init() {
 		}
 		return false
 	})
+	H("RestoreBackup", func(fr *frame, args []value) value {
+		p := fr.i.path
+		file := concStr(args[1], "backup file")
+		dir := concStr(args[2], "restore dir")
+		d := p.env.disk(dir)
+		d.ents, d.version = nil, 0
+		p.env.fsMkdir(dir)
+		pf, _ := p.env.files[file].(*payloadFile)
+		if pf == nil {
+			return nil
+		}
+		for _, part := range pf.parts {
+			bp, ok := part.(*backupPayload)
+			if !ok {
+				continue
+			}
+			var ws []kvWrite
+			for _, e := range bp.ents {
+				ws = append(ws, kvWrite{key: e.key, val: e.val})
+			}
+			d.version++
+			d.ents = p.applyWritesV(d.ents, ws, d.version)
+		}
+		return nil
+	})
 	H("SymbolicSched", func(fr *frame, args []value) value {
 		p := fr.i.path
 		p.sched.symbolic = true
